@@ -424,6 +424,8 @@ def monitor_case(ops, obs, which):
         # ---- C16: remaining = capacity - allocated
         if rem != max(cp - al, 0):
             V("C16", "remaining", f"remaining {rem} != capacity {cp} - allocated {al}", i)
+            if rem > cp:
+                V("C04", "arithmetic-wraps", f"remaining() = {rem} exceeds the capacity {cp} (allocated {al}): the size arithmetic wrapped around", i)
         # ---- C16 / C17: the cursor never lies below data_offset (the reserved prefix and the header stay out of reach)
         if al < doff:
             V("C16", "cursor-below-data-offset", f"after {ops[i].strip()}: allocated() = {al} < data_offset() = {doff}", i)
